@@ -13,10 +13,13 @@ impl Clone for Tag {
 pub trait IntoVErr { spec fn as_verr(self) -> ZVTError; fn into_verr(self) -> (r: ZVTError) ensures r == self.as_verr(); }
 impl IntoVErr for ZVTError { open spec fn as_verr(self) -> ZVTError { self } fn into_verr(self) -> (r: ZVTError) { self } }
 
-/// `rest` is the input with its first k bytes removed
-pub open spec fn is_rest_after(rest: Seq<u8>, b: Seq<u8>, k: int) -> bool {
-    0 <= k <= b.len() && rest =~= b.skip(k)
+pub mod frame {
+    use vstd::prelude::*;
+    //@ include ../prelude/frame.rs
 }
+pub use frame::is_tail;
+use frame::*;
+broadcast use {lemma_tail_intro, lemma_tail_elim, lemma_tail_refl};
 
 // ---- reference semantics of `<TAG> <LENGTH> <DATA>` (C01/C03/C14), generic in the three styles ----
 pub open spec fn tag_bytes<TE: encoding::Encoding<Tag>>(tag: Option<Tag>) -> Seq<u8> {
@@ -155,7 +158,7 @@ pub trait ZvtSerializerImpl<
     //@ tag st.deser.defined C01 C02
             Self::functional() ==> (r is Ok <==> Self::deser_defined(bytes@, tag)),
     //@ tag st.deser.frame C14
-            r matches Ok((v, rest)) ==> is_rest_after(rest@, bytes@, bytes@.len() - rest@.len()),
+            r matches Ok((v, rest)) ==> is_tail(rest@, bytes@) && rest@.len() <= bytes@.len(),
     //@ tag st.deser.ok C01 C14
             Self::functional() ==> (r matches Ok((v, rest)) ==> Self::deser_ok(bytes@, tag, v, bytes@.len() - rest@.len())),
     //@ tag st.deser.progress C02
@@ -205,7 +208,7 @@ where
     /// termination needs every round to consume a tag: elements must be tagged
     open spec fn deser_pre(tag: Option<Tag>) -> bool { T::deser_pre(tag) && T::deser_progresses(tag) }
     open spec fn deser_progresses(tag: Option<Tag>) -> bool { false }
-    open spec fn functional() -> bool { true }
+    open spec fn functional() -> bool { $VFUNC }
     open spec fn deser_defined(b: Seq<u8>, tag: Option<Tag>) -> bool { true }
     /// element content is not specified at this level (see DESIGN.md: Vec combinator, partial)
     open spec fn deser_ok(b: Seq<u8>, tag: Option<Tag>, v: Self, k: int) -> bool { true }
@@ -216,7 +219,7 @@ where
     //@ loop 0
             invariant
                 T::deser_pre(tag), T::deser_progresses(tag),
-                is_rest_after(bytes@, bytes0, bytes0.len() - bytes@.len()),
+                is_tail(bytes@, bytes0),
             decreases bytes@.len(),
     //@ entry
         let ghost bytes0 = bytes@;
@@ -249,7 +252,7 @@ where
     //@ tag zd.defined C01 C02
             Self::zd_functional() ==> (r is Ok <==> Self::zd_defined(bytes@)),
     //@ tag zd.frame C14
-            r matches Ok((v, rest)) ==> is_rest_after(rest@, bytes@, bytes@.len() - rest@.len()),
+            r matches Ok((v, rest)) ==> is_tail(rest@, bytes@),
     //@ tag zd.ok C01 C14 C15
             Self::zd_functional() ==> (r matches Ok((v, rest)) ==> Self::zd_ok(bytes@, v, bytes@.len() - rest@.len())),
     //@ end
